@@ -1,5 +1,5 @@
 """C23 — solve/solve_all report real answers or a timeout."""
-from solver import Solver, real_calls, is_none, some_payload, const_false
+from solver import outcome_of, Solver, real_calls, is_none, some_payload, const_false
 from sym import Walker, strip, show, mentions
 import statics
 from callgraph import CallGraph
@@ -76,7 +76,7 @@ def run(ctx):
             # "No more." / None outcome
             for j in searches:
                 res = ev[j]["result"]
-                none = any(c == ("variant", res) and v == "None" for c, v, bb in p.decisions)
+                none = outcome_of(p, res) == "None"
                 if none:
                     g = [(k, b) for k, b in reads if k > j]
                     if not g:
